@@ -156,7 +156,7 @@ REG = {
                      "~20% failing inputs) under strace with delay injection on mutating calls; every failpoint (site x nth x exception type incl. "
                      "SystemExit/KeyboardInterrupt/MemoryError) and SIGINT at varied instants; distinct = distinct orders of (process, create/remove) "
                      "events in the merged traces + (failpoint site, exception, exit status, leftovers?)",
-                quick=dict(rounds=[2, 8, 16, 32], failpoints=48, sigints=10, badouts=24, min_nontrivial=25, failing_share=0.2),
+                quick=dict(rounds=[2, 8, 16, 32], failpoints=48, sigints=18, badouts=24, min_nontrivial=25, failing_share=0.2),
                 thorough=dict(rounds=[2, 8, 32, 64, 128, 128, 32, 16, 8, 100, 48, 24], failpoints=400, sigints=60, badouts=200, min_nontrivial=80, failing_share=0.25),
                 deciding_monitors=["concurrent-processes", "fs-events", "failpoint-runs", "solitary-runs"],
                 assumptions=["cleanup after SIGTERM/SIGKILL is not demanded (no program can); behaviour with -o is not in the property",
